@@ -23,7 +23,7 @@ class C08(Check):
                    'repeated interior knots have multiplicity <= order-1 (spline stays continuous); for order 1 a point on an '
                    'interior knot may take either neighbouring coefficient',
                    'everyn with nx//everyn < 2 is the open finding everyn_single_breakpoint (see known_findings.json)']
-    REQUIRED_COUNTERS = ('single_point_evaluations', 'presorted_evaluations', 'opt_bkspace', 'opt_nbkpts', 'opt_everyn', 'opt_placed', 'opt_bkpt', 'not_cover_adjusted',
+    REQUIRED_COUNTERS = ('canary_sequences', 'single_point_evaluations', 'presorted_evaluations', 'opt_bkspace', 'opt_nbkpts', 'opt_everyn', 'opt_placed', 'opt_bkpt', 'not_cover_adjusted',
                          'points_compared_inside', 'points_outside_checked', 'unsorted_inputs', 'float32_inputs',
                          'scipy_agreements')
     CASE_CPU_S = 60
@@ -123,6 +123,27 @@ class C08(Check):
                 'bkpt_dtype': rng.choice(['f8', 'f8', 'f4'])}
 
     # ------------------------------------------------------------------ run
+    def canary(self):
+        """Fixed, ordinary calls one after another (see vlib.harness.canary_setup): construction by every breakpoint option,
+        evaluation inside / outside / on knots, of one point and of many."""
+        B = self.B
+        x = np.linspace(1.0, 9.0, 50)
+        res = []
+        for kw in ({'nbkpts': 7}, {'bkspace': 1.7}, {'everyn': 6}, {'bkpt': np.array([1.0, 2.0, 4.0, 4.0, 9.0])}):
+            try:
+                with warnings.catch_warnings():
+                    warnings.simplefilter('ignore')
+                    s = B.bspline(x, nord=3, **kw)
+                    s.coeff = np.arange(s.coeff.size, dtype='f8') - 2.0
+                    xe = np.array([0.5, 1.0, 2.0, 3.3, 4.0, 8.9999, 9.0, 9.5])
+                    y, m = s.value(xe)
+                    y1, m1 = s.value(xe[3:4])
+                res.append(('ok', np.asarray(s.breakpoints, dtype='f8').tobytes(), np.nan_to_num(np.asarray(y, dtype='f8')).round(10).tobytes(),
+                            m.tobytes(), float(np.asarray(y1)[0]).__round__(10), bool(m1[0])))
+            except Exception as e:
+                res.append(('raised', type(e).__name__, str(e)[:80]))
+        return res
+
     def run(self, case, out):
         B = self.B
         x = np.array(case['x'], dtype=case['xdtype'])
